@@ -554,3 +554,21 @@ Theorem C16_seq_less_code_is_model : forall o st e i j ei ej, seqK o = g_seqK st
   fn_elemListSeq_Less st e i j = Ret (Z.leb (seq_num o (keyval_v ei)) (seq_num o (keyval_v ej))).
 Proof. exact less_code_is_model. Qed.
 Print Assumptions C16_seq_less_code_is_model.
+
+(* ---- the Map encoder itself: marshalMapToXmlIndent (xml.go), translated from the CURRENT sources by go2v (join mode: the
+   code after an if / switch once; the case bodies outside the value universe stand as Crash) and proved equal, in compact mode,
+   to the model encoder [enc] rendered by [emit] that the theorems above are stated with (GenProofs/PureG18.v); escapeChars is
+   the translated one, sort.Sort the model's sort_by_key on the rows *)
+From Mxj Require Import Spec.JsonRT GenProofs.PureG15 GenProofs.PureG18.
+
+Theorem C16_marshal_map_code_is_enc : forall o st, enc_view st o ->
+  forall ind outd xm xmi v f key b i c p m t, vdepth v <= f -> text_dom o v = true ->
+  (forall its, enc o v key = Ok its ->
+     fn_marshalMapToXmlIndent (PureG15.run_escapeChars st) ind outd sort_rows sort_vrows xm xmi f st false b key v i c p m t =
+     Ret (None, (b ++ emit its, i, c, p, m, t))) /\
+  (forall e, enc o v key = Err e ->
+     exists e' b', fn_marshalMapToXmlIndent (PureG15.run_escapeChars st) ind outd sort_rows sort_vrows xm xmi f st false b key v i c p m t =
+                   Ret (Some e', (b', i, c, p, m, t))) /\
+  enc o v key <> Panic.
+Proof. exact marshal_map_code_is_enc_translated. Qed.
+Print Assumptions C16_marshal_map_code_is_enc.
